@@ -1,5 +1,6 @@
 import Texel.Proofs.Chain
 import Texel.Properties.C17
+import Texel.Proofs.NoTwice
 /-! # C06 — snapping is total: no panic, no hang for any in-grid polygon
 
 Every Go panic site is an `Except.error` of the model and every Go loop a structural recursion or a recursion on explicit
@@ -7,8 +8,11 @@ fuel (`fuel(...)` errors would be hangs). Proved here (for all polygons, valid o
 * `panicNoPointsFoundForVertices` is unreachable (every edge of an in-grid polygon is routed through ≥ 1 pixel);
 * `MustToZ` cannot panic while the deepest level is ≤ 32 (above that it does: known finding F7);
 * the outside-grid error is the only error the index construction can raise.
-Not proved (open): that `kmpDeduplicate`/`splitRing` never reach their index/slice/stack panics and that their fuel is never
-exhausted — these are evaluated on every generated input (correspondence streams `snap`, `kmp`, `split`; watchdog), see DESIGN §6 C06. -/
+* `splitRing` never reaches one of its panics (index out of range on the stack of partial rings, nil `stack.Newest`, "partial rings
+  remaining on stack") and the rest of the ring clean-up raises nothing: for every ring of a polygon inside the grid, on every level, an
+  error of `processRing` can only come out of `kmpDeduplicate` (`C06_ring_cleanup_total_partial`; under the hypothesis `KmpNoDup`, see C05).
+Not proved (open): that `kmpDeduplicate` never reaches its index/slice panics and that its fuel is never exhausted; that
+`dedupeInnersOuters` raises nothing — these are evaluated on every generated input (correspondence streams `snap`, `kmp`, `split`; watchdog), see DESIGN §6 C06. -/
 namespace Texel.C06
 open Texel
 
@@ -33,5 +37,13 @@ theorem C06_keys_encodable (x y : BitVec 32) : (Gen.Morton.toZ (x.setWidth 64) (
 theorem C06_index_total (g : Grid) (hres : 0 < g.res) (rings : List (List Pt))
     (h : ∀ v ∈ rings.flatten, (deepestAddr g v).isSome = true) : (insertAll g rings).isSome = true := by
   exact mapM_isSome_of_all _ _ h
+
+/-- **the ring clean-up is total up to spike removal** (partial: under `KmpNoDup`): for every ring of a polygon inside the grid, on every
+level `l ≤ depth`, whatever `processRing` (`cleanupNewVertices`, `cleanupNewRing`, `splitRing`) raises is raised by `kmpDeduplicate` —
+none of `splitRing`'s own panics is reachable -/
+theorem C06_ring_cleanup_total_partial (hk : KmpNoDup) (g : Grid) (hres : 0 < g.res) (rings : List (List Pt)) (addrs : List Quad)
+    (hins : insertAll g rings = some addrs) (ring : List Pt) (hring : ring ∈ rings) (l : Nat) (hl : l ≤ g.depth) (isOuter : Bool) (e : String)
+    (herr : processRing g (hotOf g addrs) l isOuter ring = .error e) : ∃ r, kmpDeduplicateF r = .error e :=
+  (processRing_nodup hk g hres rings addrs hins ring (fun v hv => List.mem_flatten.2 ⟨ring, hring, hv⟩) l hl isOuter).2 e herr
 
 end Texel.C06
